@@ -169,6 +169,9 @@ func hsSqueezes() [][]byte {
 
 // hsEq16 compares 16 bytes without forking.
 func hsEq(a, b []byte, n int) bool {
+	if len(a) < n || len(b) < n {
+		return false
+	}
 	ok := true
 	for i := 0; i < n; i++ {
 		ok = verifAnd(ok, a[i] == b[i])
